@@ -375,3 +375,24 @@ def witness_search(tier, seed):
         return None
     finally:
         shutil.rmtree(d, ignore_errors=True)
+
+
+# thorough tier: CPython cross-check of the encoder (string models: lower, endswith, regular expressions, splitext)
+def _thorough_bounded():
+    from pyvc.xcheck import EncoderCrossCheck, Concrete
+    names = ["banner.png", "Song-BN.PNG", "bn.jpg", "xbn.gif", "bg.png", "my BG.jpeg", "background.bmp", "cdtitle.png", "CdTitle.PNG", "jk_x.png", "JACKET.jpg", "albumart.png",
+             "x-cd.png", "cd.png", "disc.png", "song disc.png", "title.png", "song title.PNG", "a.ogg", "A.MP3", "b.oga", "c.wav", "notes.txt", "banner", "banner.txt", ".png", "",
+             "bn", "x.ssc", "jk_.png", "-cd.jpg", "cdtitle", "sub/banner.png", "banner.PNG.bak"]
+
+    def cases(kind):
+        def c(tier):
+            FS.install()
+            for nm in names:
+                yield (Concrete(A().ASSET_DEFINITIONS[kind]), nm)
+        return c
+
+    return [EncoderCrossCheck(f"AssetDefinition.matches[{k}]", Q + "AssetDefinition.matches", lambda: A().AssetDefinition, lambda d, p: bool(d.matches(p)), cases(k))
+            for k in KINDS]
+
+
+THOROUGH_BOUNDED = _thorough_bounded()
